@@ -54,14 +54,14 @@ def evenlist(lo, hi):
 
 ATTRS = {
     "familyName": nametext, "styleName": nametext, "styleMapFamilyName": text, "styleMapStyleName": st.sampled_from(["regular", "bold", "italic", "bold italic"]),
-    "versionMajor": st.integers(0, 200), "versionMinor": st.integers(0, 999), "copyright": text, "trademark": text,
+    "versionMajor": st.integers(0, 200), "versionMinor": st.one_of(st.integers(0, 999), st.integers(0, 999), st.sampled_from([1000, 1234, 20000])), "copyright": text, "trademark": text,
     "unitsPerEm": st.sampled_from([16, 1000, 1024, 2048, 16384, 1000.0]), "descender": num, "xHeight": num, "capHeight": num, "ascender": num,
     "italicAngle": st.one_of(st.integers(-30, 30), st.floats(-45, 45).map(lambda v: round(v, 2))),
     "openTypeHeadCreated": st.sampled_from(["2020/01/02 03:04:05", "1970/01/01 00:00:00", "2038/01/19 03:14:08"]),
     "openTypeHeadLowestRecPPEM": st.integers(0, 100), "openTypeHeadFlags": bits(14),
     "openTypeHheaAscender": intv, "openTypeHheaDescender": intv, "openTypeHheaLineGap": intv, "openTypeHheaCaretSlopeRise": intv, "openTypeHheaCaretSlopeRun": intv, "openTypeHheaCaretOffset": intv,
     "openTypeNameDesigner": text, "openTypeNameDesignerURL": text, "openTypeNameManufacturer": text, "openTypeNameManufacturerURL": text, "openTypeNameLicense": text, "openTypeNameLicenseURL": text,
-    "openTypeNameVersion": text, "openTypeNameUniqueID": text, "openTypeNameDescription": text, "openTypeNamePreferredFamilyName": nametext, "openTypeNamePreferredSubfamilyName": nametext,
+    "openTypeNameVersion": st.one_of(text, st.sampled_from(["Version 1.000", "release 7", "Version snapshot 2.1", "no. 12", "1.5 Version 2", "version 3", "Versionen 2", " 1"])), "openTypeNameUniqueID": text, "openTypeNameDescription": text, "openTypeNamePreferredFamilyName": nametext, "openTypeNamePreferredSubfamilyName": nametext,
     "openTypeNameCompatibleFullName": text, "openTypeNameSampleText": text, "openTypeNameWWSFamilyName": text, "openTypeNameWWSSubfamilyName": text,
     "openTypeNameRecords": st.lists(st.fixed_dictionaries({"nameID": st.integers(0, 300), "platformID": st.just(3), "encodingID": st.just(1), "languageID": st.sampled_from([0x409, 0x407]), "string": text}), max_size=2),
     "openTypeOS2WidthClass": st.integers(1, 9), "openTypeOS2WeightClass": st.integers(1, 1000), "openTypeOS2Selection": st.lists(st.sampled_from([1, 2, 3, 4, 7, 8, 9]), unique=True, max_size=3).map(sorted),
